@@ -100,6 +100,13 @@ class Sut(object):
             self.t.close()
         except Exception:
             pass
+        for b, folder in getattr(self, "bystanders", []):
+            try:
+                b.close()
+            except Exception:
+                pass
+            if folder:
+                shutil.rmtree(folder, ignore_errors=True)
         if self.own_folder and self.folder:
             shutil.rmtree(self.folder, ignore_errors=True)
 
@@ -383,6 +390,28 @@ class Sut(object):
                 m.remove_rule(op["anchor"])
             elif k == "reopen":
                 self.reopen()
+            elif k == "bystander":
+                cfg2 = {"backend": "memory" if op.get("memory", True) else "file"}
+                folder = None if op.get("memory", True) else tempfile.mkdtemp(prefix="vtby", dir=self.scratch)
+                b = Traph(folder=folder, default_webentity_creation_rule=RX["subdomain"], webentity_creation_rules={})
+                for l in op.get("pages", []):
+                    b.add_page(l)
+                if not hasattr(self, "bystanders"):
+                    self.bystanders = []
+                self.bystanders.append((b, folder))
+                self.stats["bystander_indexes_opened"] += 1
+            elif k == "addp_foreign":
+                p = op["prefix"]
+                m.ins(p)
+                if p in m.we:
+                    self.stats["ops_skipped"] += 1
+                    return out
+                t.add_prefix_to_webentity(p, op["id"])
+                gid = -op["id"]
+                m.we[p] = gid
+                self.idmap[gid] = op["id"]
+                self.rid[op["id"]] = gid
+                self.stats["foreign_ids_attached"] += 1
             elif k == "overwrite_open":
                 rules = {a: RX[r] for a, r in op["rules"]}
                 t.close()
@@ -413,7 +442,7 @@ class Sut(object):
                 "batch": ["C01", "C03"], "create": ["C04"], "delete": ["C04"], "addp": ["C04"],
                 "rmp": ["C04"], "mvp": ["C04"], "rule": ["C06"], "rmrule": ["C06"],
                 "reopen": ["C11"], "clear": ["C11"], "bad_delete": ["C04"], "bad_rmp": ["C04"], "bad_mvp": ["C04"],
-                "overwrite_open": ["C11"],
+                "overwrite_open": ["C11"], "bystander": ["C12"], "addp_foreign": ["C04"],
             }[k]
             out.append(D(props, "exception-in-write", op=k, exc=type(e).__name__, msg=str(e)[:200],
                          tb=traceback.format_exc()[-600:], backend=self.cfg["backend"]))
@@ -861,6 +890,25 @@ class Sut(object):
             if sorted(gcl) != sorted(p for p, c in exp.items() if c) or not all(x["crawled"] for x in gc):
                 out.append(D(["C05"], "webentity-crawled-pages", gid=gid, got=sorted(gcl)[:6]))
                 return
+        # the lazy per-webentity enumerations of two webentities advanced in turns must not disturb each other
+        gl2 = sorted(byw)
+        if len(gl2) >= 2 and hasattr(t, "webentity_page_nodes_iter"):
+            g1, g2 = rng.sample(gl2, 2)
+            its = [(g1, t.webentity_page_nodes_iter(self.idmap[g1], sorted(byw[g1])), []), (g2, t.webentity_page_nodes_iter(self.idmap[g2], sorted(byw[g2])), [])]
+            alive = [True, True]
+            self.stats["C05_interleaved_listings"] += 1
+            while any(alive):
+                for k_, (g_, it, acc) in enumerate(its):
+                    if alive[k_]:
+                        nxt = next(it, None)
+                        if nxt is None:
+                            alive[k_] = False
+                        else:
+                            acc.append(nxt[1])
+            for g_, it, acc in its:
+                if Counter(acc) != Counter(m.we_pages(g_, owner).keys()):
+                    out.append(D(["C05"], "interleaved-webentity-listings", gid=g_, n_got=len(acc), n_expected=len(m.we_pages(g_, owner))))
+                    return
         expu = Counter(p for p, (w, _) in owner.items() if w is not None)
         if union != expu:
             out.append(D(["C05"], "partition", diff=sorted((union - expu) + (expu - union))[:6]))
